@@ -130,7 +130,8 @@ pub fn gen_scen(r: &mut Rng, max_trains: usize) -> Scen {
     let mut net = vec![Link::default()];
     let kind = *r.pick(&["line", "diamond", "diamond", "diamond", "junction"]);
     let short = r.chance(0.25);
-    let (len_lo, len_hi) = if short { (2, 8) } else { (12, 40) };
+    // short: links of 0.5-2 km, or 250-750 m (a train then spans three and more links, also when it ends its trip)
+    let (len_lo, len_hi) = if short { if r.chance(0.5) { (2, 8) } else { (1, 3) } } else { (12, 40) };
     let n_main = if big { r.usize(8, 14) } else { r.usize(3, 8) };
     let lockouts = r.chance(0.4);
     let yards = r.chance(0.6);
@@ -455,6 +456,35 @@ fn oracle_plan(ctx: &mut Ctx, case: &Case, plan: &[Vec<(usize, f64)>]) {
             occ.push((ti + 1, p[k].0, p[k].1, if k + 1 < p.len() { p[k + 1].1 } else { p[k].1 }, if k + 1 < p.len() { p[k + 1].0 } else { 0 }));
         }
     }
+    // tail-aware lower bound of the hold window ("from the front entering to the tail clearing"): when the front arrives at
+    // link m+1 it is sum(len k+1..m) beyond the end of link k; while that is less than the train length the tail is
+    // certainly still on link k (a train that ends its trip spanning several links holds them all to the end)
+    let mut hold: Vec<(usize, usize, f64, f64)> = vec![]; // train, link, from, certainly-still-held-at
+    for (ti, p) in plan.iter().enumerate() {
+        let tl = case.sc.trains[ti].state.length.value;
+        for k in 0..p.len() {
+            // beyond(m) = how far the front is past the end of link k when it arrives at p[m]: 0 for m = k+1, then + len(p[m-1])
+            let mut beyond = 0.0;
+            let mut m = k;
+            while m + 1 < p.len() {
+                let nb = if m == k { 0.0 } else { beyond + net[p[m].0].length.value };
+                if nb < tl { m += 1; beyond = nb; } else { break; }
+            }
+            hold.push((ti + 1, p[k].0, p[k].1, p[m].1));
+        }
+    }
+    for x in &hold { for y in &hold {
+        if x.0 >= y.0 { continue; }
+        let opposing = net[x.1].idx_flip.idx() == y.1 && y.1 != 0;
+        let locked = net[x.1].link_idxs_lockout.iter().any(|z| z.idx() == y.1) || net[y.1].link_idxs_lockout.iter().any(|z| z.idx() == x.1);
+        if opposing || locked {
+            let clause = if opposing { "plan_no_opposing_overlap_tail_aware" } else { "plan_no_lockout_overlap_tail_aware" };
+            ctx.checked("C04", clause);
+            if x.2.max(y.2) < x.3.min(y.3) {
+                case.fail(ctx, clause, &case.id, format!("returned plan: train {} (front enters link {} at {}, tail certainly still on it at {}) and train {} (front enters the conflicting link {} at {}, tail certainly still on it at {}) hold both at once", x.0, x.1, x.2, x.3, y.0, y.1, y.2, y.3), case.input(serde_json::json!({"plan": plan})));
+            }
+        }
+    } }
     for x in &occ { for y in &occ {
         if x.0 >= y.0 { continue; }
         let opposing = net[x.1].idx_flip.idx() == y.1;
@@ -538,6 +568,21 @@ fn run_scen(ctx: &mut Ctx, sc: &Scen, seed: u64, verbose: bool) {
                 Ok(ops) => {
                     for o in &ops { ctx.count(&format!("c04.ops.{}", o.name())); }
                     stats_gate(ctx, &sc.net, &prev, &ops);
+                    // a train that ends its trip still spans every link it holds until that instant (its tail never
+                    // clears them earlier): all its remaining authorities must be released at ONE time, the end of the trip
+                    {
+                        let mut by_train: std::collections::BTreeMap<u32, Vec<(usize, f64)>> = Default::default();
+                        for o in &ops { if let Op::Fin { l, i, t } = o { by_train.entry(s.tbl[*l][*i].tr).or_default().push((*l, *t)); } }
+                        for (tr, v) in by_train {
+                            ctx.checked("C04", "trip_end_releases_all_links_at_once");
+                            let tmax = v.iter().map(|x| x.1).fold(f64::NEG_INFINITY, f64::max);
+                            if v.len() > 1 { ctx.count("c04.fin.train_spanning_several_links"); }
+                            if v.len() > 2 { ctx.count("c04.fin.train_spanning_three_or_more_links"); }
+                            if let Some(bad) = v.iter().find(|x| x.1 != tmax) {
+                                case.fail(ctx, "trip_end_releases_all_links_at_once", &id, format!("snapshot {} ({}): train {} ends its trip at {} but its authority on link {} is closed (clear_exit) at {}, while its tail is still there", k, s.phase, tr, tmax, bad.0, bad.1), case.input(serde_json::json!({"snapshot": k, "released": v})));
+                            }
+                        }
+                    }
                     let ok = raw_plan_ok(&sc.net, &s.tbl);
                     if !ok { ctx.count("c04.snap.raw_plan_not_ok"); }
                     // the only precondition the unchanged code is known to break: a train terminating behind a leader that is still in the link
